@@ -5,7 +5,7 @@
 From Coq Require Import String.
 From Coq Require Import List Bool Arith NArith ZArith.
 Import ListNotations.
-Require Import Str JunModel JunProofs G_rx G_text_consts TextModel TextProofs.
+Require Import Str IpText JunModel JunProofs G_rx G_text_consts TextModel TextProofs TextProofs2.
 
 Definition pseudonym (n : nat) : str := lit "netconanRemoved" ++ show_dec (N.of_nat n).
 Definition is_hex_lower (c : N) : bool := ((48 <=? c) && (c <=? 57) || (97 <=? c) && (c <=? 102))%N.
@@ -28,6 +28,16 @@ Proof.
   exists c. split; auto. apply D. left. unfold pseudonym. discriminate.
 Qed.
 
+(* quotes, brackets and terminators around a value are split off and put back exactly: raw = head ++ value ++ tail, for EVERY raw value *)
+Theorem C09_enclosing_text_is_a_partition_of_the_raw_value : forall raw h v t, extract_enclosing raw [] [] = (h, v, t) -> (h ++ v ++ t)%list = raw.
+Proof. exact C09_enclosing_text_partition. Qed.
+
+(* whatever _anonymize_value returns is either the raw value itself or head ++ replacement ++ tail with the value's own head and tail *)
+Theorem C09_replacement_keeps_the_enclosing_text : forall orc raw lookup reserved salt out lookup',
+  anonymize_value orc raw lookup reserved salt = Done (out, lookup') ->
+  out = raw \/ exists repl, out = (fst (fst (extract_enclosing raw [] [])) ++ repl ++ snd (extract_enclosing raw [] []))%list.
+Proof. exact anonymize_value_keeps_enclosing_text. Qed.
+
 (* the enclosing-text lists read from the source are what the property names: quotes (plain and escaped), space, brackets, terminators *)
 Theorem C09_enclosing_texts :
   ENCLOSING_HEAD = map lit ["\'"; "\"""; "'"; """"; " "; "["; "{"]%string /\
@@ -36,4 +46,6 @@ Proof. split; vm_compute; reflexivity. Qed.
 
 Print Assumptions C09_numeric_hex_type7_encodings_have_their_shape_for_the_first_200_pseudonyms.
 Print Assumptions C09_juniper_replacement_is_decryptable.
+Print Assumptions C09_enclosing_text_is_a_partition_of_the_raw_value.
+Print Assumptions C09_replacement_keeps_the_enclosing_text.
 Print Assumptions C09_enclosing_texts.
